@@ -69,12 +69,37 @@ def check_total(expr, v, out=None):
     return []
 
 
+def _innermost(m, q):
+    """descend two colliding values in parallel down to the (dict, list) pair that differs"""
+    if isinstance(m, dict) and isinstance(q, (list, tuple)):
+        return m, q
+    if isinstance(q, dict) and isinstance(m, (list, tuple)):
+        return q, m
+    cm, cq = _children(m), _children(q)
+    if len(cm) == len(cq):
+        for x, y in zip(cm, cq):
+            if V.canon(x) != V.canon(y):
+                return _innermost(x, y)
+    return ({}, [None]) if not isinstance(m, dict) else (m, [None])
+
+
 def check_pair(ea, va, eb, vb):
     oa, ob = outcome(va), outcome(vb)
     if oa[0] == "h" and ob[0] == "h" and oa[1] == ob[1]:
         ca, cb = V.canon(va), V.canon(vb)
         if ca != cb:
             w = V.witness(ca, cb)
+            if set(w) == {"map", "seq"}:
+                # which list does the dict collide with? the list of its [key, value] pairs (a recorded finding) or another one
+                mv, sv = (va, vb) if isinstance(va, dict) else (vb, va)
+                im, iq = _innermost(mv, sv)
+                pairs, other = V.canon([[k, x] for k, x in im.items()]), V.canon(iq)
+                if pairs == other:
+                    w = ("map", "seq_of_its_pairs")
+                else:
+                    # modulo that identification: what else differs between the list of pairs and the colliding list?
+                    w2 = V.witness(pairs, other)
+                    w = w2 if not ({"map", "seq", "seq_empty", "map_empty"} & set(w2)) else ("map", "seq_other")
             return [Violation(P, f"C05|collision|{w[0]}~{w[1]}", f"dds_hash({ea}) == dds_hash({eb})",
                               {"mode": "pair", "a": ea, "b": eb, "tier": TIER[0]})]
     return []
@@ -119,6 +144,41 @@ def check_size(kind, n, expr, limit=3):
     return []
 
 
+# ------------------------------------------------------------------ where the error is raised
+
+BAD = {"TYPE_NOT_SUPPORTED": ["set()", "b'x'", "object()", "1j", "range(3)", "(lambda: 1)"],
+       "SEQUENCE_TOO_LONG": ["[1, 1, 1, 1, 1]", "(1, 1, 1, 1, 1)", "{'a': 1, 'b': 1, 'c': 1, 'd': 1, 'e': 1}"]}
+DICT_KEYS = ["'a'", "0", "True", "None", "1.5", "(1, 2)", "datetime.date(2020, 1, 2)", "datetime.time(3, 4)", "PurePosixPath('a')", "''",
+             "datetime.datetime(2020, 1, 2, 3, 4, 5)", "-1", "'a.b'", "'[0]'"]
+
+
+def position_wrappers(depth):
+    """expressions with one hole: every position a value can occupy below `depth` containers"""
+    one = ["[{}]", "[0, {}]", "({},)", "(0, 'a', {})", "DC({})", "DA(0, {})"]
+    one += ["{{" + k + ": {}}}" for k in DICT_KEYS] + ["OrderedDict([(" + k + ", {})])" for k in DICT_KEYS[:6]]
+    out = list(one)
+    if depth >= 2:
+        out += [a.replace("{}", b) for a in one for b in one]
+    return out
+
+
+def check_position(wrapper, code, bad):
+    import dds
+    expr = wrapper.format(bad)
+    old = dds.get_option("hash.max_sequence_size")
+    dds.set_option("hash.max_sequence_size", 4)
+    try:
+        out = outcome(V.ev(expr))
+    finally:
+        dds.set_option("hash.max_sequence_size", old)
+    if out != ("dds", code):
+        where = re.sub(r"'[^']*'|[0-9.]+", "", wrapper).replace("{}", "_")[:40]
+        return [Violation(P, f"C05|error_position|{code}|{out[1] if out[0] != 'h' else 'hashed'}",
+                          f"dds_hash({expr}) with hash.max_sequence_size=4 -> {out}, expected DDSException {code} (position {where})",
+                          {"mode": "position", "wrapper": wrapper, "code": code, "bad": bad})]
+    return []
+
+
 # ------------------------------------------------------------------ through dds.keep
 
 KEEP_MOD = "def f(x):\n    return 'r'\n\ndef g(x, y=0):\n    return 'r'\n"
@@ -159,6 +219,8 @@ def check_keep_pair(scratch, ea, eb):
     if not vs and sa[0] == "h" and sb[0] == "h":
         if (sa[1] == sb[1]) != (oa[1] == ob[1]) and V.canon(V.ev(ea)) != V.canon(V.ev(eb)) and sa[1] == sb[1]:
             w = V.witness(V.canon(V.ev(ea)), V.canon(V.ev(eb)))
+            if set(w) == {"map", "seq"}:
+                w = ("map", "seq_other")
             vs.append(Violation(P, f"C05|keep|collision|{w[0]}~{w[1]}",
                                 f"dds.keep('/p', f, {ea}) and ({eb}) share a signature", {"mode": "keep", "a": ea, "b": eb}))
     return vs
@@ -166,15 +228,17 @@ def check_keep_pair(scratch, ea, eb):
 
 # ------------------------------------------------------------------ table in other interpreters
 
-def table_digest(tier):
+def table_digest(tier, reverse=False):
     uni = V.universe(tier)
+    if reverse:
+        uni = list(reversed(uni))   # a hash must not depend on what was hashed before it in the process
     return {e: list(outcome(v)) for e, v in uni}
 
 
-def _foreign_table(tier, hashseed):
+def _foreign_table(tier, hashseed, reverse=False):
     env = dict(os.environ, PYTHONHASHSEED=str(hashseed), PYTHONPATH=core.VERIF, PYTHONDONTWRITEBYTECODE="1")
     code = ("import sys, json; from vt import core; core.ensure_repo_dds(); from vt.checks import c05; "
-            f"json.dump(c05.table_digest({tier!r}), sys.stdout)")
+            f"json.dump(c05.table_digest({tier!r}, {reverse!r}), sys.stdout)")
     p = subprocess.run([core.PY, "-c", code], env=env, capture_output=True, text=True, cwd="/", timeout=3000)
     if p.returncode != 0:
         raise core.HarnessError("foreign table failed: " + p.stderr[-1500:])
@@ -209,17 +273,25 @@ def run(tier, seed):
                 res.violations += check_pair(reps[i][0], reps[i][1], reps[j][0], reps[j][1])
     # determinism across interpreters / hash seeds
     seeds = [1, 1000 + seed % 997]
-    for hs in seeds:
-        ft = _foreign_table(tier, hs)
+    for i, hs in enumerate(seeds):
+        rev = i == 1   # the second interpreter also hashes the universe in the opposite order
+        ft = _foreign_table(tier, hs, rev)
         if ft != table:
             diff = [e for e in table if ft.get(e) != table[e]][:3]
-            res.violations.append(Violation(P, "C05|nondeterministic|hashseed",
-                                            f"hash table differs under PYTHONHASHSEED={hs}: {diff}",
-                                            {"mode": "seed", "tier": tier, "hashseed": hs, "exprs": diff}))
+            res.violations.append(Violation(P, "C05|nondeterministic|" + ("hashseed_or_order" if rev else "hashseed"),
+                                            f"hash table differs under PYTHONHASHSEED={hs}{' with the values hashed in the opposite order' if rev else ''}: {diff}",
+                                            {"mode": "seed", "tier": tier, "hashseed": hs, "exprs": diff, "reverse": rev}))
     # size guard
     sc = size_cases()
     for k, n, e in sc:
         res.violations += check_size(k, n, e)
+    # every position x every refusal: the error is the coded one wherever the offending value sits
+    npos = 0
+    for w in position_wrappers(1 if tier == "quick" else 2):
+        for code, bads in BAD.items():
+            for b in (bads if tier != "quick" or "{}" == w else bads[:3]):
+                res.violations += check_position(w, code, b)
+                npos += 1
     # keep route: atoms + depth-1 sample, all pairs inside groups of equal keep signature
     nkeep = 0
     with core.Scratch("c05") as scratch:
@@ -249,7 +321,7 @@ def run(tier, seed):
                 res.violations.append(Violation(P, "C05|keep|splits_hash_class", f"{es} hash equal but keep signatures differ",
                                                 {"mode": "keepsplit", "exprs": es}))
     res.coverage = dict(
-        evaluations=len(uni) * (1 + len(seeds)) + len(sc) + nkeep,
+        evaluations=len(uni) * (1 + len(seeds)) + len(sc) + nkeep + npos,
         distinct_nontrivial=len(groups),
         rule=("every value of the bounded grammar (atoms incl. boundary ints, signed zeros, nan/inf, separator-like strings, "
               "dates, paths; lists/tuples len<=3, dicts/OrderedDicts <=2 entries in both insertion orders, dataclasses; nesting depth "
@@ -257,7 +329,7 @@ def run(tier, seed):
               "PYTHONHASHSEED; distinct_nontrivial = number of distinct hashes obtained; all pairs compared by grouping on the hash"),
         exhaustive=True,
         values=len(uni), pairs_in_equal_hash_groups=npairs, outcome_counts=outcomes,
-        size_guard_cases=len(sc), keep_route_calls=nkeep, hash_seeds=[0] + seeds,
+        size_guard_cases=len(sc), keep_route_calls=nkeep, error_position_cases=npos, hash_seeds=[0] + seeds,
         samples=[uni[0][0], uni[len(uni) // 3][0], uni[len(uni) // 2][0], uni[-1][0]],
     )
     res.assumptions = ["digest-shaped strings (a 64-hex string equal to another value's hash) are outside the alphabet",
@@ -277,11 +349,13 @@ def replay(case):
         return check_pair(case["a"], V.ev(case["a"]), case["b"], V.ev(case["b"]))
     if m == "size":
         return check_size(case["kind"], case["n"], case["expr"])
+    if m == "position":
+        return check_position(case["wrapper"], case["code"], case["bad"])
     if m == "seed":
         here = table_digest(case["tier"])
-        there = _foreign_table(case["tier"], case["hashseed"])
+        there = _foreign_table(case["tier"], case["hashseed"], case.get("reverse", False))
         if here != there:
-            return [Violation(P, "C05|nondeterministic|hashseed", "tables differ", case)]
+            return [Violation(P, "C05|nondeterministic|" + ("hashseed_or_order" if case.get("reverse") else "hashseed"), "tables differ", case)]
         return []
     if m in ("keep", "keepsplit"):
         with core.Scratch("c05") as scratch:
